@@ -281,6 +281,7 @@ pub fn argv_os(argv: &[Vec<u8>]) -> Vec<OsString> { argv.iter().map(|b| OsString
 
 /// run the real parser; Ok(canon) / Err(kind) / PANIC
 pub fn real_parse(cmd: &CmdS, argv: &[Vec<u8>]) -> (String, Option<ArgMatches>, Option<clap::Error>) {
+    let _guard = RealCall::new(&parse_request(cmd, argv));
     let mut envs = vec![];
     let r = std::panic::catch_unwind(std::panic::AssertUnwindSafe(|| {
         let c = cmd.build(&mut envs);
@@ -299,6 +300,7 @@ pub fn real_parse(cmd: &CmdS, argv: &[Vec<u8>]) -> (String, Option<ArgMatches>, 
 
 /// does the real library accept the definition (debug assertions)?
 pub fn real_valid(cmd: &CmdS) -> bool {
+    let _guard = RealCall::new(&format!("build {}", cmd.encode()));
     let mut envs = vec![];
     let r = std::panic::catch_unwind(std::panic::AssertUnwindSafe(|| { let mut c = cmd.build(&mut envs); c.build(); }));
     for e in envs { std::env::remove_var(e); }
@@ -529,6 +531,8 @@ pub fn gen_argv(rng: &mut Rng, cmd: &CmdS, maxlen: usize) -> Vec<Vec<u8>> {
                     for _ in 0..k { s.push(*rng.pick(&shorts)); }
                     if rng.chance(1, 5) { if let Some(f) = cur.subs.iter().filter_map(|x| x.short_flag).next() { s.push(f); if rng.chance(1, 2) { s.push(*rng.pick(&shorts)); } } }
                     if rng.chance(1, 6) { s.push_str(*rng.pick(VALS)); }
+                    // `-fo=value`: a value-taking short at the end of a cluster, with the `=` form
+                    else if rng.chance(1, 4) { if let Some(a) = opts.iter().find(|a| a.short.is_some() && !matches!(a.action, Some("setTrue") | Some("setFalse") | Some("count"))) { s.push(a.short.unwrap()); s.push('='); s.push_str(*rng.pick(VALS)); } }
                     out.push(s.into_bytes());
                 }
             }
